@@ -39,7 +39,7 @@ class PairCheck(Check):
                 '(wire message sequence A, wire message sequence P) pairs')
 
     def nontrivial(self, trace, meta):
-        if 'agent' in meta:
+        if 'agent' in meta or meta.get('source') == 'scripted-peer':
             return repr(meta)
         wires = {'A': [], 'P': []}
         started = False
@@ -54,7 +54,7 @@ class PairCheck(Check):
         return repr((wires['A'], wires['P']))
 
     def sample(self, trace, meta):
-        if 'agent' in meta:
+        if 'agent' in meta or meta.get('source') == 'scripted-peer':
             return {'meta': meta, 'events': len(trace)}
         return {'meta': meta, 'events': len(trace), 'summary': tp.summarize(trace)[:1500]}
 
@@ -102,6 +102,21 @@ class C04(PairCheck):
     devs = ('start_after_term',)
     term_p = 0.6
 
+    def executions(self, tier, seed):
+        traces, metas = PairCheck.executions(self, tier, seed)
+        # "no segment exceeds the peer's announced segment MRU" must also hold while the sender adapts its
+        # segment size to ACK latency (off by default): virtual time passes between callbacks
+        from harness.drivers import tcpcl_timers
+        rnd = random.Random(seed * 31 + 4)
+        for i in range(24 if tier != 'thorough' else 300):
+            mru = rnd.choice([1, 7, 500, 4096, 9000, 10239, 10240, 10241, 20000, 10 ** 6])
+            init = rnd.choice([100, 8192, 10240, 102400])
+            nbytes = min(rnd.choice([1000, 60000, 250000]), mru * 120)
+            traces.append(tcpcl_timers.run_adaptive(seed * 1000 + i, mru, init, nbytes))
+            metas.append({'source': 'adaptive', 'peer_mru': mru, 'seg_init': init, 'bytes': nbytes})
+        self.extra_coverage['adaptive_sizing_runs'] = 24 if tier != 'thorough' else 300
+        return traces, metas
+
 
 class C09(PairCheck):
     prop = 'C09'
@@ -130,6 +145,15 @@ class C18(PairCheck):
         xt = [utr[i] for i in keep_u] + [btr[i] for i in keep_b]
         xm = [dict(ume[i], agent='udpcl') for i in keep_u] + [dict(bme[i], agent='btpu') for i in keep_b]
         self.extra_coverage['udpcl_btpu_signal_traces'] = len(xt)
+        # one real endpoint against the scripted peer of C17 (refusals, out-of-place and early messages): the
+        # queue / idle / signal views must stay consistent there too
+        from harness.drivers import tcpcl_adv
+        atr, ame = tcpcl_adv.executions('quick', seed)
+        step = 3 if tier != 'thorough' else 1
+        keep = [i for i in range(len(atr)) if i % step == 0 or 'refuse_sent_unacked' in ame[i]['sess']]
+        traces += [atr[i] for i in keep]
+        metas += [dict(ame[i], source='scripted-peer') for i in keep]
+        self.extra_coverage['scripted_peer_traces'] = len(keep)
         return [('TcpclTrace', traces, metas), ('XferObs', xt, xm)]
 
 
